@@ -11,7 +11,7 @@ from ..errors import AnalysisError
 from ..model import ClassInfo, FuncInfo, dotted, src, walk_scope
 from ..poly import Rat, p_atom
 from ..report import Context
-from ..util import calls_in, is_self_attr, normaliser, parse_expr, returns_of
+from ..util import calls_in, is_self_attr, node_for, normaliser, parse_expr, returns_of
 
 LEVEL_TEXT = (
     "Static analysis of black_it/loss_functions and utils/time_series.py (no execution): (R1) interprocedural, "
@@ -483,13 +483,25 @@ def r6_filters(ctx: Context) -> None:
         ok = len(c.args) == 1 and str(nf.rat(c.args[0])) == str(nf.rat(parse_expr(f"{sim}[{j}, :, {i}]"))) and src(gen.iter) in (f"range({sim}.shape[0])", f"range(len({sim}))", f"range(0, {sim}.shape[0])")
         if not ok and len(c.args) == 1:
             # the members visited by value: `for series in sim[:, :, i]` binds series to sim[_I_, :, i], once per member
-            from ..util import IDX, _substitute, loop_binding
+            from ..util import IDX, _substitute, loop_binding, reaching_events
             try:
                 env_, counts = loop_binding(gen.target, gen.iter)
             except AnalysisError:
                 env_, counts = {}, []
             if env_:
                 arg = c.args[0]
+                # a local holding the coordinate block (`block = sim[:, :, i]` ... `filter_(block[j])`): read through its one reaching definition
+                gcf = CFG(f.node)
+                at_nodes = node_for(gcf, c)
+                for nm_ in {x.id for x in ast.walk(arg) if isinstance(x, ast.Name)} - set(env_) - {sim, i, flt}:
+                    evs = reaching_events(gcf, nm_, at_nodes[0]) if at_nodes else []
+                    if len(evs) == 1 and evs[0][1] == "assign" and isinstance(evs[0][2], (ast.Assign, ast.AnnAssign)) and evs[0][2].value is not None:
+                        arg = _substitute(arg, nm_, evs[0][2].value)
+                # the trip count may sit in a once-bound local
+                counts = [nf.env.get(k.id, k) if isinstance(k, ast.Name) and hasattr(nf, "env") else k for k in counts]
+                from ..poly import single_assignment_env
+                sae = single_assignment_env(f.node)
+                counts = [sae.get(k.id, k) if isinstance(k, ast.Name) else k for k in counts]
                 for nm_, ex_ in env_.items():
                     arg = _substitute(arg, nm_, ex_)
                 ast.fix_missing_locations(arg)
